@@ -14,8 +14,6 @@ NA = {
            "layer (runtime wrappers -> bint primitives) is already compared call-for-call under C04.",
     "C14": "Compares parse trees of two renderings; its truth lives in the 2-D layout rules applied to run-time token "
            "positions. The single structural clause (comments/newlines dropped before parsing) fails the existing tests at once.",
-    "C20": "Container histories and logical equivalence of normal forms are run-time quantities; there is no second "
-           "implementation or table to cross-check against.",
 }
 
 # id -> dict(text, note, technique, design)
@@ -25,6 +23,19 @@ CLAIMED = {}
 def claim(pid, text, note, technique, design):
     CLAIMED[pid] = dict(text=text, note=note, technique=technique, design=design)
 
+
+claim("C20",
+      "Thin, structural: decides only clauses visible in the shape of the container code, each a necessary condition of the model "
+      "behaviour: bit-vector set operations are the word-wise C operator of their name over exactly the class's words (V1); hash-table "
+      "look-up, store and removal compute hash, bucket index and bucket head by identical statements, and the entry count changes by "
+      "exactly one on insert and on removal (V2); the heap's parent/child index macros are mutually inverse and the sift loops use "
+      "them (V3); a B-tree node found by a search is not dereferenced after a restructuring call (V4, shared with C10); the And/Or "
+      "duals of the condition logic are the same code (V5). It does not decide that any container behaves as its model over "
+      "sequences of operations, nor the logical equivalence of normal forms: those are run-time quantities.",
+      "Trusted: clang 14 front end; the macro bodies of priq.c are evaluated as integer arithmetic for i in 0..200.",
+      "structural lints over the clang AST (custom LibTooling extractor + Python rules): expression-shape match, sibling token "
+      "isomorphism, macro evaluation",
+      "DESIGN.md section 3, C20")
 
 claim("C10",
       "Thin, structural: decides only the size-class table clause (monotone, aligned, shift/lookup encoding consistent, lookup "
